@@ -217,7 +217,7 @@ UPGRADER:
 		case stateClose:
 			return net.ErrClosed
 		case stateMethodBefore:
-			if isValidMethodChar(c) {
+			if isToken(c) {
 				start = i
 				p.nextState(stateMethod)
 				continue
@@ -225,16 +225,13 @@ UPGRADER:
 			return ErrInvalidMethod
 		case stateMethod:
 			if c == ' ' {
-				var method = strings.ToUpper(string(data[start:i]))
-				if !isValidMethod(method) {
-					return ErrInvalidMethod
-				}
-				p.Processor.OnMethod(p, method)
+				// a method is any token, and it is reported as it was sent.
+				p.Processor.OnMethod(p, string(data[start:i]))
 				start = i + 1
 				p.nextState(statePathBefore)
 				continue
 			}
-			if !isAlpha(c) {
+			if !isToken(c) {
 				return ErrInvalidMethod
 			}
 		case statePathBefore:
